@@ -376,6 +376,168 @@ Definition field_codec_sources : list (string * string) := [
    "lambda data, offset: L2CAP_Credit_Based_Connection_Request.parse_cid_list(data, offset)");
   ("bumble.l2cap:L2CAP_Credit_Based_Reconfigure_Request.destination_cid.serializer",
    "lambda value: L2CAP_Credit_Based_Connection_Request.serialize_cid_list(value)");
+  ("bumble.sdp:DataElement.__bytes__",
+   "def __bytes__(self) -> bytes:
+    if self._bytes:
+        return self._bytes
+    match self.type:
+        case DataElement.NIL:
+            data = b''
+        case DataElement.UNSIGNED_INTEGER:
+            if self.value < 0:
+                raise InvalidArgumentError('UNSIGNED_INTEGER cannot be negative')
+            match self.value_size:
+                case 1:
+                    data = struct.pack('B', self.value)
+                case 2:
+                    data = struct.pack('>H', self.value)
+                case 4:
+                    data = struct.pack('>I', self.value)
+                case 8:
+                    data = struct.pack('>Q', self.value)
+                case invalid_length:
+                    raise InvalidArgumentError(f'invalid value_size of {invalid_length}')
+        case DataElement.SIGNED_INTEGER:
+            match self.value_size:
+                case 1:
+                    data = struct.pack('b', self.value)
+                case 2:
+                    data = struct.pack('>h', self.value)
+                case 4:
+                    data = struct.pack('>i', self.value)
+                case 8:
+                    data = struct.pack('>q', self.value)
+                case invalid_length:
+                    raise InvalidArgumentError(f'invalid value_size of {invalid_length}')
+        case DataElement.UUID:
+            data = bytes(self.value)[::-1]
+        case DataElement.URL:
+            data = self.value.encode('utf8')
+        case DataElement.BOOLEAN:
+            data = bytes([1 if self.value else 0])
+        case DataElement.SEQUENCE | DataElement.ALTERNATIVE:
+            data = b''.join([bytes(element) for element in self.value])
+        case _:
+            data = self.value
+    size = len(data)
+    size_bytes = b''
+    match self.type:
+        case DataElement.NIL:
+            if size != 0:
+                raise InvalidArgumentError('NIL must be empty')
+            size_index = 0
+        case DataElement.UNSIGNED_INTEGER | DataElement.SIGNED_INTEGER | DataElement.UUID:
+            if size <= 1:
+                size_index = 0
+            elif size == 2:
+                size_index = 1
+            elif size == 4:
+                size_index = 2
+            elif size == 8:
+                size_index = 3
+            elif size == 16:
+                size_index = 4
+            else:
+                raise InvalidArgumentError('invalid data size')
+        case DataElement.TEXT_STRING | DataElement.SEQUENCE | DataElement.ALTERNATIVE | DataElement.URL:
+            if size <= 255:
+                size_index = 5
+                size_bytes = bytes([size])
+            elif size <= 65535:
+                size_index = 6
+                size_bytes = struct.pack('>H', size)
+            elif size <= 4294967295:
+                size_index = 7
+                size_bytes = struct.pack('>I', size)
+            else:
+                raise InvalidArgumentError('invalid data size')
+        case DataElement.BOOLEAN:
+            if size != 1:
+                raise InvalidArgumentError('boolean must be 1 byte')
+            size_index = 0
+        case unsupported_type:
+            raise core.InvalidPacketError(f'internal error - {unsupported_type} not supported')
+    self._bytes = bytes([self.type << 3 | size_index]) + size_bytes + data
+    return self._bytes");
+  ("bumble.sdp:DataElementParser.__init__",
+   "def __init__(self, data: bytes, offset: int=0, max_depth: int=_MAX_DATA_ELEMENT_NESTING) -> None:
+    self.data = data
+    self.offset = offset
+    self.depth = 0
+    self.max_depth = max_depth");
+  ("bumble.sdp:DataElementParser._list_from_bytes",
+   "def _list_from_bytes(self, end_offset: int) -> list[DataElement]:
+    if self.depth >= self.max_depth:
+        raise InvalidPacketError(f'SDP data element nesting exceeds max depth ({self.max_depth})')
+    self.depth += 1
+    elements = []
+    while self.offset < end_offset:
+        elements.append(self.parse_next())
+        if self.offset > end_offset:
+            raise InvalidPacketError(f'SDP data element ends at offset {self.offset}, beyond the end of its container ({end_offset})')
+    self.depth -= 1
+    return elements");
+  ("bumble.sdp:DataElementParser.parse_next",
+   "def parse_next(self) -> DataElement:
+    if self.offset >= len(self.data):
+        raise core.InvalidStateError(f'offset {self.offset} exceeds len(data) {len(self.data)}')
+    start_offset = self.offset
+    element_type = DataElement.Type(self.data[self.offset] >> 3)
+    size_index = self.data[self.offset] & 7
+    self.offset += 1
+    value_size: int
+    match size_index:
+        case 0:
+            if element_type == DataElement.NIL:
+                value_size = 0
+            else:
+                value_size = 1
+        case 1:
+            value_size = 2
+        case 2:
+            value_size = 4
+        case 3:
+            value_size = 8
+        case 4:
+            value_size = 16
+        case 5:
+            value_size = self.data[self.offset]
+            self.offset += 1
+        case 6:
+            value_size = struct.unpack_from('>H', self.data, self.offset)[0]
+            self.offset += 2
+        case 7:
+            value_size = struct.unpack_from('>I', self.data, self.offset)[0]
+            self.offset += 4
+        case _:
+            raise core.UnreachableError()
+    value_start = self.offset
+    value_end = self.offset + value_size
+    match element_type:
+        case DataElement.NIL:
+            result = DataElement(DataElement.NIL, None)
+        case DataElement.UNSIGNED_INTEGER:
+            result = DataElement(DataElement.UNSIGNED_INTEGER, DataElement.unsigned_integer_from_bytes(self.data, value_start, value_size), value_size=value_size)
+        case DataElement.SIGNED_INTEGER:
+            result = DataElement(DataElement.SIGNED_INTEGER, DataElement.signed_integer_from_bytes(self.data, value_start, value_size), value_size=value_size)
+        case DataElement.UUID:
+            result = DataElement(DataElement.UUID, core.UUID.from_bytes(self.data[value_start:value_end][::-1]))
+        case DataElement.TEXT_STRING:
+            result = DataElement(DataElement.TEXT_STRING, self.data[value_start:value_end])
+        case DataElement.BOOLEAN:
+            result = DataElement(DataElement.BOOLEAN, self.data[value_start] == 1)
+        case DataElement.SEQUENCE | DataElement.ALTERNATIVE:
+            self.offset = value_start
+            result = DataElement(element_type, self._list_from_bytes(value_end))
+            if self.offset != value_end:
+                logger.warning('Expect parsing until offset %d, but ends at %d', value_end, self.offset)
+        case DataElement.URL:
+            result = DataElement(DataElement.URL, self.data[value_start:value_end].decode('utf8'))
+        case other_type:
+            result = DataElement(other_type, self.data[value_start:value_end])
+    self.offset = value_end
+    result._bytes = self.data[start_offset:value_end]
+    return result");
   ("bumble.sdp:SDP_ServiceAttributeRequest.attribute_id_list.parser",
    "def parse_from_bytes(cls, data: bytes, offset: int) -> tuple[int, DataElement]:
     parser = DataElementParser(data, offset)
